@@ -250,6 +250,14 @@ pub fn run(path: &str, out: &mut dyn Write) {
                     }
                 }
             }
+            Some("trainnew") => {
+                if t.len() >= 7 {
+                    let f: Vec<Option<Vec<u8>>> = t[2..7].iter().map(|h| unhex(h)).collect();
+                    if let [Some(a), Some(b), Some(c), Some(d), Some(e)] = &f[..] {
+                        writeln!(out, "{input} IMPL {}{flags}", crate::trainnew::observe(a, b, c, d, e)).unwrap();
+                    }
+                }
+            }
             Some("limits") => {
                 if t.len() >= 6 && t[2] == "BIGRAM" {
                     if let Ok(rows) = t[3].parse::<usize>() {
